@@ -88,6 +88,43 @@ def real_binary_part(ctx, ninja, known):
             else: ctx.violation('compdb-json', 'real binary compdb with command bytes e9 ff\n', 'compdb output is not valid JSON: %s' % ex)
     finally:
         shutil.rmtree(d, ignore_errors=True)
+    return n + dry_run_with_redundant_log(ctx, ninja)
+
+def dry_run_with_redundant_log(ctx, ninja):
+    """a state that exists only between runs: .ninja_log holds more than 100 records and more than three per output, so the next session that
+    opens it for writing recompacts it.  A dry run (and every read-only tool) with work pending must leave the file byte-identical, and the next
+    real build must still do that work"""
+    d = tempfile.mkdtemp(prefix='verif-c19-', dir='/dev/shm'); n = 0
+    try:
+        man = lambda v: 'rule w\n  command = echo %s > $out\nbuild out.txt: w\nbuild o2: w\nbuild o3: w\n' % v
+        open(d + '/build.ninja', 'w').write(man('v1'))
+        p = subprocess.run([ninja, '-C', d], stdout=subprocess.PIPE, stderr=subprocess.STDOUT, timeout=60); n += 1
+        if p.returncode != 0: return n
+        lines = open(d + '/.ninja_log').read().split('\n'); recs = [l for l in lines[1:] if l]
+        open(d + '/.ninja_log', 'w').write(lines[0] + '\n' + ''.join(r + '\n' for r in recs * 40))
+        open(d + '/build.ninja', 'w').write(man('v2'))                     # the command line changed: all three have work to do
+        for args in (['-n'], ['-t', 'commands'], ['-t', 'query', 'out.txt'], ['-t', 'targets', 'all'], ['-n', '-v', 'out.txt']):
+            # the MEANING of the log (last record per output: mtime and command hash) must not change; a tool that opens the log may recompact it
+            def meaning():
+                m = {}
+                if os.path.exists(d + '/.ninja_log'):
+                    for l in open(d + '/.ninja_log', errors='replace').read().split('\n')[1:]:
+                        w = l.split('\t')
+                        if len(w) == 5: m[w[3]] = (w[2], w[4])
+                return m
+            rest = lambda: {k: v for k, v in snapshot(d).items() if k != '.ninja_log'}
+            before = open(d + '/.ninja_log', 'rb').read(); mb = meaning(); snap = rest()
+            p = subprocess.run([ninja, '-C', d] + args, stdout=subprocess.PIPE, stderr=subprocess.STDOUT, timeout=60); n += 1
+            after = open(d + '/.ninja_log', 'rb').read() if os.path.exists(d + '/.ninja_log') else None
+            if meaning() != mb or rest() != snap:
+                ctx.violation('dry-run-rewrites-log', 'real binary: 3 statements built once, .ninja_log = header + the 3 records repeated 40 times (120 records, 3 outputs), command lines changed, then `ninja %s`\n' % ' '.join(args),
+                              '`ninja %s` changed what the build log says (last record per output %s -> %s) or another file, although it must only observe (.ninja_log %d -> %s bytes)' % (' '.join(args), sorted(mb.items())[:2], sorted(meaning().items())[:2], len(before), len(after) if after is not None else '-'))
+                break
+        p = subprocess.run([ninja, '-C', d], stdout=subprocess.PIPE, stderr=subprocess.STDOUT, timeout=60); n += 1
+        got = open(d + '/out.txt').read() if os.path.exists(d + '/out.txt') else None
+        if p.returncode != 0 or got != 'v2\n':
+            ctx.violation('dry-run-poisons-next-build', 'real binary: as above, then a real `ninja`\n', 'after the dry runs the real build leaves out.txt = %r (expected \'v2\\n\'), exit %d: %s' % (got, p.returncode, p.stdout.decode(errors='replace')[-150:].replace('\n', ' | ')))
+    finally: shutil.rmtree(d, ignore_errors=True)
     return n
 
 def run(ctx):
